@@ -484,9 +484,48 @@ pub struct TableCase {
     /// if set, the first put's value is this many incompressible bytes (sweeps the offset of the
     /// following blocks over every residue of the 2 KiB filter ranges)
     pub sweep_len: Option<usize>,
+    /// if set: a long run of this many user keys with shared prefixes (several restart points per
+    /// block; the restart interval is 16), every 5th key with two versions
+    pub long_run: Option<usize>,
+}
+
+/// keys of a long run: shared prefixes of varying length, sorted, unique
+pub fn long_run_keys(n: usize) -> Vec<Vec<u8>> {
+    let mut v: Vec<Vec<u8>> = (0..n)
+        .map(|i| {
+            let mut k = b"key".to_vec();
+            k.extend_from_slice(format!("{:03}", i / 3).as_bytes());
+            match i % 3 {
+                0 => {}
+                1 => k.push(b'a'),
+                _ => k.extend_from_slice(b"a\xff".as_ref()),
+            }
+            k
+        })
+        .collect();
+    v.sort();
+    v.dedup();
+    v
 }
 
 pub fn table_entries(c: &TableCase) -> Vec<VerifEntry> {
+    if let Some(n) = c.long_run {
+        let keys = long_run_keys(n);
+        let total = keys.len() + keys.len() / 5 + 1;
+        let mut seq = total as u64 + 1;
+        let mut out = vec![];
+        for (i, k) in keys.iter().enumerate() {
+            let versions = if i % 5 == 0 { 2 } else { 1 };
+            for v in 0..versions {
+                seq -= 1;
+                let is_put = !(i % 7 == 3 && v == 0);
+                let size = VALUE_SIZES[(i + v + c.variant) % 3];
+                let val: Vec<u8> = if is_put { (0..size).map(|j| ((i * 37 + j * 11 + 5) & 0xff) as u8).collect() } else { vec![] };
+                out.push((k.clone(), seq, is_put, val));
+            }
+        }
+        return out;
+    }
     let ks = table_keys();
     let total: usize = c.patterns.iter().map(|&p| PATTERNS[p].len()).sum();
     let mut seq = total as u64 + 1;
@@ -548,7 +587,7 @@ pub fn table_case_json(c: &TableCase) -> Value {
     json!({
         "entries": table_entries(c).iter().map(show_entry).collect::<Vec<_>>(),
         "max_block_size": c.block_size,
-        "keys": c.keys, "patterns": c.patterns, "variant": c.variant, "big_values": c.big_values, "sweep_len": c.sweep_len,
+        "keys": c.keys, "patterns": c.patterns, "variant": c.variant, "big_values": c.big_values, "sweep_len": c.sweep_len, "long_run": c.long_run,
     })
 }
 
@@ -666,7 +705,22 @@ pub fn table_case(c: &TableCase, shm: &Shm, check_filters: bool, cursor_len: usi
     }
     // probes
     let seqs: Vec<u64> = (0..=(entries.len() as u64 + 2)).chain(std::iter::once((1u64 << 56) - 1)).collect();
-    for k in probe_keys() {
+    let probes: Vec<Vec<u8>> = if c.long_run.is_some() {
+        let mut p: Vec<Vec<u8>> = vec![vec![], b"key".to_vec(), b"kez".to_vec()];
+        for e in entries.iter() {
+            p.push(e.0.clone());
+            let mut g = e.0.clone();
+            g.push(0x00);
+            p.push(g);
+        }
+        p.sort();
+        p.dedup();
+        p
+    } else {
+        probe_keys()
+    };
+    let seqs: Vec<u64> = if c.long_run.is_some() { vec![0, 1, entries.len() as u64 / 2, entries.len() as u64 + 2, (1u64 << 56) - 1] } else { seqs };
+    for k in probes {
         for &s in seqs.iter() {
             shm.add(C_USER, 1);
             // seek
@@ -705,6 +759,7 @@ pub fn table_case(c: &TableCase, shm: &Shm, check_filters: bool, cursor_len: usi
     // ops: 0 first, 1 last, 2 next, 3 prev, 4.. seek to entry i / just past entry i
     let n = entries.len();
     let n_ops = 4 + n;
+    let cursor_len = if c.long_run.is_some() { cursor_len.min(2) } else { cursor_len };
     let mut prog = vec![0usize; cursor_len];
     let total = n_ops.pow(cursor_len as u32);
     for code in 0..total {
@@ -794,8 +849,21 @@ pub fn table_cases(max_keys: usize, block_sizes: &[usize], variants: usize) -> V
                 .collect();
             for &b in block_sizes {
                 for variant in 0..variants {
-                    v.push(TableCase { keys: s.clone(), patterns: pats.clone(), block_size: b, variant, big_values: false, sweep_len: None });
+                    v.push(TableCase { keys: s.clone(), patterns: pats.clone(), block_size: b, variant, big_values: false, sweep_len: None, long_run: None });
                 }
+            }
+        }
+    }
+    v
+}
+
+/// long runs: more entries per block than the restart interval
+pub fn long_run_cases() -> Vec<TableCase> {
+    let mut v = vec![];
+    for n in [15usize, 16, 17, 31, 32, 33, 48, 100] {
+        for &b in &[64usize, 256, 1024, 1 << 20] {
+            for variant in 0..2 {
+                v.push(TableCase { keys: vec![], patterns: vec![], block_size: b, variant, big_values: false, sweep_len: None, long_run: Some(n) });
             }
         }
     }
@@ -810,7 +878,7 @@ pub fn filter_table_cases() -> Vec<TableCase> {
         for p in 0..PATTERNS.len() {
             for &b in &[1usize, 16, 2048, 4096, 1 << 20] {
                 for big in [false, true] {
-                    v.push(TableCase { keys: keys.clone(), patterns: keys.iter().map(|_| p).collect(), block_size: b, variant: 0, big_values: big, sweep_len: None });
+                    v.push(TableCase { keys: keys.clone(), patterns: keys.iter().map(|_| p).collect(), block_size: b, variant: 0, big_values: big, sweep_len: None, long_run: None });
                 }
             }
         }
@@ -819,7 +887,7 @@ pub fn filter_table_cases() -> Vec<TableCase> {
     // offsets of the following blocks take every residue modulo the filter range size
     for l in 1900..=(1900 + 2048 + 200) {
         for &b in &[1usize, 64] {
-            v.push(TableCase { keys: vec![2, 4, 5, 6], patterns: vec![0, 0, 2, 0], block_size: b, variant: 0, big_values: false, sweep_len: Some(l) });
+            v.push(TableCase { keys: vec![2, 4, 5, 6], patterns: vec![0, 0, 2, 0], block_size: b, variant: 0, big_values: false, sweep_len: Some(l), long_run: None });
         }
     }
     v
